@@ -14,8 +14,16 @@ semantic error) and every option set:
      type descriptor as a Gallina term; Gen_Descr_<n>.v states `wf_descr_all tab = true`
      and coqc decides it by vm_compute on every run.
 (a) and (b) are observations about two C programs (evidence of the exploration
-kind); (c) is a checked obligation."""
-import sys, os, re, json
+kind); (c) is a checked obligation.
+Round 2 (lib/c10_regions.py: parameterized types, multi-module inputs given as several files in every order,
+one module per grammar rule group; coq/Fix/ParamSpec.v, coq/Fix/FileSet.v):
+ (d) the emitted file set is self-contained (nothing written twice, every #include and every makefile source exists,
+     no skeleton name taken) - oracle on the C output alone, every accepted module;
+ (e) the per-type file stems asn1c reports (`Compiled X.c`, in order) = FileSet.file_stems of the extracted model;
+ (f) the specialization index of every flat instantiation site (read from the generated header) =
+     ParamSpec.spec_indices of the model; and, on the C output alone, references with different actual parameter
+     lists must not share a C type (false on the unchanged tree: finding C10-param-actuals-compared-shallowly)."""
+import sys, os, re, json, time
 sys.path.insert(0, os.path.join(os.path.dirname(os.path.abspath(__file__)), "..", "lib"))
 from vlib import *
 from c10_util import *
@@ -118,6 +126,83 @@ def tag_exceeds_30_bits(text):
     return any(int(n) >= 2**30 for n in re.findall(r"\[\s*(?:UNIVERSAL|APPLICATION|PRIVATE|CONTEXT)?\s*(\d+)\s*\]", strip_comments(text)))
 
 
+MIXEDCASE_TYPES = "BMPString|GeneralString|GraphicString|IA5String|ISO646String|NumericString|PrintableString|T61String|TeletexString|UniversalString|UTF8String|VideotexString|VisibleString|GeneralizedTime|UTCTime|ObjectDescriptor"
+SKELETON_STEMS = None
+
+
+def null_actual(text):
+    """NULL written as an ACTUAL parameter of a parameterized reference:  P {NULL}  /  P {INTEGER, NULL}"""
+    return bool(re.search(r"\b[A-Z][\w-]*\s*\{\s*(?:[^{}:=]*,\s*)?NULL\s*(?:,[^{}]*)?\}", strip_comments(text)))
+
+
+def governor_mixedcase(text):
+    """a dummy parameter governed by a builtin type whose keyword is not all capitals:  P {IA5String:d} ::="""
+    return bool(re.search(r"\{[^{}]*\b(?:%s)\s*:\s*[A-Za-z][\w-]*[^{}]*\}\s*::=" % MIXEDCASE_TYPES, strip_comments(text)))
+
+
+def governor_null(text):
+    return bool(re.search(r"\{[^{}]*\bNULL\s*:\s*[a-z][\w-]*[^{}]*\}\s*::=", strip_comments(text)))
+
+
+def enum_value_reference(text):
+    """an ENUMERATED item whose number is a value reference:  ENUMERATED { k(v3), l }"""
+    return bool(re.search(r"\bENUMERATED\s*\{[^{}]*\b[a-z][\w-]*\s*\(\s*[a-z][\w-]*\s*\)", strip_comments(text)))
+
+
+def skeleton_named_type(text, skel):
+    global SKELETON_STEMS
+    if SKELETON_STEMS is None:
+        SKELETON_STEMS = {f[:-2] for f in os.listdir(skel) if f.endswith(".h")}
+    return any(n in SKELETON_STEMS for n in re.findall(r"(?m)^\s*([A-Z][\w-]*)\s*(?:\{[^}]*\}\s*)?::=", strip_comments(text)))
+
+
+def param_types_in_two_modules(text):
+    """names of parameterized type assignments that occur in two modules"""
+    names = re.findall(r"(?m)^\s*([A-Z][\w-]*)\s*\{[^{}]*\}\s*::=", strip_comments(text))
+    return {n for n in names if names.count(n) > 1}
+
+
+def param_type_in_two_modules(text):
+    return bool(param_types_in_two_modules(text))
+
+
+def valueset_used_as_type(text):
+    t = strip_comments(text)
+    for n in re.findall(r"(?m)^\s*([A-Z][\w-]*)\s+[A-Z][\w -]*?::=\s*\{", t):
+        if re.search(r"\b[a-z][\w-]*\s+%s\b(?!\s*::=)" % re.escape(n), t):
+            return True
+    return False
+
+
+def unsigned_bounds(lo, hi):
+    try:
+        l = int(lo)
+    except ValueError:
+        return False
+    if l < 0:
+        return False
+    if hi == "MAX":
+        return True
+    try:
+        return 2**31 <= int(hi) < 2**32
+    except ValueError:
+        return False
+
+
+def of_unsigned_through_param(text):
+    """C10-of-unsigned-element reached through a template: P {T} ::= ... OF T ... instantiated with an INTEGER whose
+    constraint selects the unsigned representation"""
+    t = strip_comments(text)
+    for name, params, body in re.findall(r"(?m)^\s*([A-Z][\w-]*)\s*\{([^{}]*)\}\s*::=(.*)$", t):
+        dummies = [x.strip().split(":")[-1].strip() for x in params.split(",")]
+        if not any(re.search(r"\bOF\s+%s\b" % re.escape(d), body) for d in dummies if d):
+            continue
+        for acts in re.findall(r"\b%s\s*\{([^{}]*)\}(?!\s*::=)" % re.escape(name), t):
+            if any(unsigned_bounds(lo, hi) for lo, hi in re.findall(r"\bINTEGER\s*\(\s*(-?\w+)\s*\.\.\s*(-?\w+)", acts)):
+                return True
+    return False
+
+
 def match_finding(stage, job):
     """-> finding id or None.  Each rule = symptom signature (the site) AND a predicate on (module text, options)."""
     text, opts = job["mod"]["text"], job["opts"]
@@ -128,8 +213,16 @@ def match_finding(stage, job):
             return "C10-of-of-size-assert"
         if job["rc"] == -11 and left_recursive_choice(text):
             return "C11-leftrec-crash"
+        if "asn1f_find_terminal_thing: Assertion `ref'" in err and null_actual(text):
+            return "C10-param-null-actual-assert"
+        if "asn1p_ref_add_component: Assertion `lex_type ==" in err and governor_mixedcase(text):
+            return "C10-param-governor-mixedcase-assert"
+        if "asn1constraint_default_alphabet: Assertion" in err and "ISO646String" in strip_comments(text):
+            return "C10-iso646string-assert"
+        if job["rc"] == -11 and enum_value_reference(text):
+            return "C10-enum-value-reference-crash"
     if stage in ("build", "cxx"):
-        if re.search(r"asn_DEF_Member_\d+. undeclared", blog) and has_of_unsigned_integer(text):
+        if re.search(r"asn_DEF_Member_\d+. undeclared", blog) and (has_of_unsigned_integer(text) or of_unsigned_through_param(text)):
             return "C10-of-unsigned-element"
         if re.search(r"expected specifier-qualifier-list before .typedef.|invalid use of undefined type .struct \w*Member\w*", blog) \
            and "-fcompound-names" in opts and nested_anon_of(text):
@@ -138,6 +231,37 @@ def match_finding(stage, job):
             return "C10-param-circular-include"
         if re.search(r"empty enum is invalid|asn_MAP_\w+_tag2el_\d+. undeclared", blog) and has_empty_set(text):
             return "C10-empty-set"
+        if re.search(r"\b(EXTERNAL|EMBEDDED_PDV|CHARACTER_STRING)\.h: No such file", blog) and re.search(r"\b(EXTERNAL|EMBEDDED\s+PDV|CHARACTER\s+STRING)\b", strip_comments(text)):
+            return "C10-unsupported-useful-types-no-skeleton"
+        if re.search(r"unknown type name .\w+_\d+P\d+_t|asn_DEF_\w+_\d+P\d+. undeclared|\w+_\d+P\d+. has not been declared|does not name a type", blog):
+            if governor_null(text):
+                return "C10-param-null-value-respecialized"
+            if param_type_in_two_modules(text):
+                return "C10-param-type-in-two-modules"
+        if re.search(r"#error Cannot compile", blog) and re.search(r"\bINSTANCE\s+OF\b", strip_comments(text)):
+            return "C10-instance-of-member-error-directive"
+        if re.search(r"\b[\w-]+\.h: No such file", blog) and valueset_used_as_type(text):
+            return "C10-valueset-type-as-member"
+        if skeleton_named_type(text, job["skel"]) and re.search(r"unknown type name|undeclared|conflicting types|redefinition|does not name a type|has not been declared", blog):
+            return "C10-type-named-like-skeleton"
+    if stage == "files-model":
+        # model and C disagree on the per-type file names ONLY at parameterized types defined in two modules
+        # (the templates are not run through asn1f_check_duplicate: no module prefix, both saved to one file)
+        want, got, clash = job.get("model_stems", []), job.get("stems", []), param_types_in_two_modules(text)
+        if clash and len(want) == len(got) and all(w == g or (g in clash and w.endswith("_" + g)) for w, g in zip(want, got)):
+            return "C10-param-type-in-two-modules"
+    if stage == "fileset":
+        kinds = {p_.split(":")[0] for p_ in job.get("fileset", [])}
+        clash = param_types_in_two_modules(text)
+        if kinds <= {"written-twice"} and clash and all(p_.split(":")[1][:-2] in clash for p_ in job["fileset"]):
+            return "C10-param-type-in-two-modules"
+        incs = " ".join(job.get("fileset", []))
+        if kinds <= {"missing-include"} and re.search(r"includes (EXTERNAL|EMBEDDED_PDV|CHARACTER_STRING)\.h", incs) and re.search(r"\b(EXTERNAL|EMBEDDED\s+PDV|CHARACTER\s+STRING)\b", strip_comments(text)):
+            return "C10-unsupported-useful-types-no-skeleton"
+        if kinds <= {"missing-include"} and valueset_used_as_type(text):
+            return "C10-valueset-type-as-member"
+        if kinds <= {"shadows-skeleton"} and skeleton_named_type(text, job["skel"]):
+            return "C10-type-named-like-skeleton"
     if stage == "overflow":
         if bound_exceeds_long(text) or tag_exceeds_30_bits(text):
             return "C10-constant-exceeds-c-type"
@@ -145,6 +269,106 @@ def match_finding(stage, job):
         if set(job["failing_clauses"]) <= {4, 6} and bound_exceeds_long(text):
             return "C10-constant-exceeds-c-type"
     return None
+
+
+# ---------------------------------------------------------------- round 2: file set and specialization ties
+
+def shallow_pairs(sites, types):
+    """pairs of sites of one template that share a C type although their actual parameter lists differ; each pair is
+    (site i, site j, explained) with explained = the lists have the same key text (differ in constraints / nested
+    parameter lists only) - the predicate of finding C10-param-actuals-compared-shallowly"""
+    out = []
+    for i in range(len(sites)):
+        for j in range(i + 1, len(sites)):
+            a, b = sites[i], sites[j]
+            ta, tb = types.get("%s.%s" % (a["carrier"], a["member"])), types.get("%s.%s" % (b["carrier"], b["member"]))
+            if a["tmpl"] == b["tmpl"] and ta and tb and ta == tb and a["text"] != b["text"]:
+                out.append((a, b, a["key"] == b["key"] and a["mod"] == b["mod"]))
+    return out
+
+
+def region_ties(run, res, known_ids):
+    model = model_build()
+    lines, owners = [], []
+    for j in res:
+        m = j["mod"]
+        if j.get("rc") != 0:
+            continue
+        if m.get("nmods"):
+            toks = [str(len(m["nmods"]))]
+            for name, ids in m["nmods"]:
+                toks += [name, str(len(ids))] + [t for i, ty in ids for t in (i, "1" if ty else "0")]
+            lines.append("c10_files " + " ".join(toks))
+            owners.append((j, "files", None))
+        if m.get("sites"):
+            for tmpl in sorted({s["tmpl"] for s in m["sites"]}):
+                ss = [s for s in m["sites"] if s["tmpl"] == tmpl]
+                for cmd in ("c10_spec", "c10_spec_key"):
+                    lines.append("%s %d %s" % (cmd, len(ss), " ".join(s["model"] for s in ss)))
+                    owners.append((j, cmd, ss))
+    out = []
+    if lines:
+        rc, out, err = run_lines(model, lines)
+        if rc != 0 or len(out) != len(lines):
+            raise RuntimeError("model driver failed: rc=%s lines=%d/%d %s" % (rc, len(out), len(lines), err))
+    keyline = {}
+    for (j, what, ss), line, ans in zip(owners, lines, out):
+        m, opts = j["mod"], j["opts"]
+        case = "%s %s" % (m["name"], " ".join(opts))
+        replay = {"module": m["text"], "module_name": m["name"], "files": [f for f, _ in m.get("files", [])], "options": list(opts),
+                  "replay_cmd": "asn1c -S <skeletons> -pdu=all %s %s" % (" ".join(opts), " ".join(f for f, _ in m.get("files", [(m["name"] + ".asn1", "")]))),
+                  "model_cmd": line[:1500]}
+        if what == "files":
+            run.count("tie:file-set")
+            got = "OK " + " ".join(j.get("stems", []))
+            want = re.sub(r"^OK clean=\w+ ?", "OK ", ans).strip()
+            if "clean=false" in ans:
+                run.violation("harness:unclean-names", dict(replay, what="generated module list carries a name with a low line"), no_input=True)
+            j["model_stems"] = want.split()[1:]
+            fid = match_finding("files-model", j) if want != got.strip() else None
+            if fid and fid in known_ids:
+                run.known_finding(fid, case)
+                run.count("known:" + fid)
+            elif want != got.strip():
+                run.violation("correspondence:FileSet.file_stems", dict(replay, what="per-type files written by asn1c differ from the model's (names or order)",
+                                                                         model=ans, c=got, fileset=j.get("fileset")), no_input=not j.get("fileset"))
+        elif what == "c10_spec_key":
+            keyline[id(j), ss[0]["tmpl"]] = ans
+        else:
+            run.count("tie:specialization-sites", len(ss))
+            types = j.get("site_types", {})
+            got = [types.get("%s.%s" % (s["carrier"], s["member"])) for s in ss]
+            cline = "OK " + " ".join(str(t[2]) if t else "?" for t in got)
+            pairs = shallow_pairs(ss, types)
+            if ans != cline:
+                run.violation("correspondence:ParamSpec.spec_indices", dict(replay, what="specialization indices in the generated headers differ from the model's",
+                                                                             model=ans, c=cline, sites=[(s["member"], s["text"]) for s in ss]), no_input=not pairs)
+            # Spec vs Code, on the C output alone: different actual parameter lists must not share a C type
+            if any(e for _, _, e in pairs) and "C10-param-actuals-compared-shallowly" in known_ids:
+                run.known_finding("C10-param-actuals-compared-shallowly", case)
+                run.count("known:C10-param-actuals-compared-shallowly")
+            for a, b, explained in pairs:
+                run.count("oracle:distinct-actuals-share-a-type(pairs)")
+                if not (explained and "C10-param-actuals-compared-shallowly" in known_ids):
+                    run.violation("param:distinct-actuals-share-a-type", dict(replay, what="two references with different actual parameters are given ONE C type",
+                                                                             site_a=(a["member"], a["text"]), site_b=(b["member"], b["text"]), c_type=types.get("%s.%s" % (a["carrier"], a["member"]))))
+    # the theorem spec_ignores_constraints, replayed: the key-erased references get the same indices
+    for (j, what, ss), line, ans in zip(owners, lines, out):
+        if what == "c10_spec" and keyline.get((id(j), ss[0]["tmpl"])) != ans:
+            run.violation("model:spec_ignores_constraints", {"what": "model disagrees with its own theorem", "line": line[:800]}, no_input=True)
+    # the file-set oracle for EVERY accepted module (not only the multi-module ones)
+    for j in res:
+        if j.get("rc") == 0 and j.get("fileset"):
+            m, opts = j["mod"], j["opts"]
+            run.count("oracle:file-set-broken")
+            fid = match_finding("fileset", j)
+            if fid and fid in known_ids:
+                run.known_finding(fid, "%s %s" % (m["name"], " ".join(opts)))
+                run.count("known:" + fid)
+                continue
+            kinds = sorted({p.split(":")[0] for p in j["fileset"]})
+            run.violation("fileset:" + ",".join(kinds), {"module": m["text"], "module_name": m["name"], "files": [f for f, _ in m.get("files", [])], "options": list(opts),
+                                                        "what": "asn1c exited 0 but the set of files it wrote is not self-contained", "problems": j["fileset"]})
 
 
 # ---------------------------------------------------------------- main
@@ -178,14 +402,21 @@ def main(tier):
         for oi, opts in enumerate(optsets):
             # thorough: asn1c runs under all 128 subsets for every module; the build + translator part runs for 16 of them
             # per module, rotating so that all subsets are built across the corpus
-            if tier == "quick" and m["origin"] == "special" and not m.get("all_optsets") and oi not in (mi % 2, 2 + (mi // 2) % 2):
+            if tier == "quick" and m["origin"] in ("special", "multi", "grammar") and not m.get("all_optsets") and oi not in (mi % 2, 2 + (mi // 2) % 2):
                 continue        # quick: generated modules get the 4 option sets, hand-made valid ones 2 of them in rotation
-            full = tier == "quick" or ((oi - 16 * mi) % 128) < 16
+            if tier == "quick" and m["origin"] == "param" and oi not in (1, (3, 0, 2)[mi % 3]):
+                continue        # parameterized modules mostly need -fcompound-names (set 1); a second set in rotation
+            if tier == "quick" and m["origin"] == "grammar-refused" and oi != mi % 4:
+                continue        # refusals happen in the parser / fixer: one option set each
+            # thorough: build + translator under 16 rotating subsets per module (6 for the region modules of round 2, which are many)
+            full = tier == "quick" or ((oi - 16 * mi) % 128) < (6 if m["origin"] in ("param", "multi", "grammar", "grammar-refused") else 16)
             jobs.append({"mod": m, "opts": opts, "oi": oi, "dir": job_dir(root, m, oi), "asn1c": asn1c, "skel": skel,
                          "only_asn1c": not full, "cleanup": True})
+    print("C10: %d jobs" % len(jobs), file=sys.stderr)
     res = run_jobs(jobs)
+    print("C10: jobs done at %.1fs" % (time.time() - T0), file=sys.stderr)
 
-    tables, table_jobs = [], []
+    tables, table_jobs, tabled = [], [], set()
     for j in res:
         m, opts = j["mod"], j["opts"]
         case = "%s %s" % (m["name"], " ".join(opts))
@@ -251,13 +482,25 @@ def main(tier):
         run.count("descriptors", len(terms))
         for k, _n in names_.values():
             run.count("kind:" + k)
+        if tier == "quick" and m["origin"] in ("param", "multi", "grammar", "grammar-refused") and m["name"] in tabled:
+            run.count("descriptor-tables-not-rechecked(round-2 module, second option set)")
+            continue            # quick: the descriptor obligation of a round-2 module is generated for its first option set only
+        tabled.add(m["name"])
         tables.append((case, "-no-gen-PER" not in opts, "-no-gen-OER" not in opts, terms))
         table_jobs.append((j, names_, replay))
         if len(run.cov["samples"]) < 3 and m["origin"] in ("special", "modgen") and len(terms) >= 3:
             run.sample({"module": m["name"], "options": list(opts), "descriptors": len(terms), "first": terms[0][:300]})
 
+    # ---- round 2: the file set and the specialization indices, model vs C and the oracle on the C output alone
+    try:
+        region_ties(run, res, known_ids)
+    except RuntimeError as e:
+        run.violation("model:modeldrv", {"what": str(e)[-1500:]}, no_input=True)
+
     # the generated obligations
+    print("C10: ties done at %.1fs, %d tables" % (time.time() - T0, len(tables)), file=sys.stderr)
     tres = check_tables(scr, tables) if tables else {}
+    print("C10: obligations done at %.1fs" % (time.time() - T0), file=sys.stderr)
     nobl, ndone = nthm + len(tables), ndis
     for i, (j, names_, replay) in enumerate(table_jobs):
         st, diag, log = tres.get(i, ("error", [], "not run"))
@@ -279,6 +522,13 @@ def main(tier):
         run.violation("translator:Gen_Descr(clause %s)" % ",".join(sorted({str(c) for _, c in diag})),
                       dict(replay, what="asn1c exited 0 and the code builds, but a type descriptor is internally inconsistent: wf_descr_all = false",
                            failing=bad, terms=[tables[i][3][d][:1500] for d, _ in diag[:2] if d < len(tables[i][3])]))
+
+    # vlib prints one VIOLATION line per kind among the first 20 recorded: put one of every kind first
+    firsts, rest, seen_k = [], [], set()
+    for v in run.violations:
+        (rest if v["kind"] in seen_k else firsts).append(v)
+        seen_k.add(v["kind"])
+    run.violations = firsts + rest
 
     tb = ["Coq 8.16.1 kernel + vm_compute (generated obligations)", "axioms under Print Assumptions: " + (", ".join(sorted(axioms)) or "none (Closed under the global context)"),
           "harness/dumpdescr.c (reads the public asn_TYPE_descriptor_t layout; op-table identity by address)", "lib/c10_util.py (corpus, pipeline, recognisers of the known findings)",
